@@ -101,3 +101,25 @@ pub fn long_type_roundtrip(b: u8) -> u32 {
         LongHeaderType::Standard(LongType::ZeroRtt) => 8,
     }
 }
+
+/// Native replay body of E2 query `e2_header_decode_advance` (C03 / C10): `PartialDecode::new` on long
+/// headers whose token / length fields claim more bytes than the datagram holds returns an error
+/// (or a header) and never panics.  Loops: native only.
+pub fn header_decode_bounds_native(first: u8) -> u32 {
+    let parser = crate::FixedLengthConnectionIdParser::new(8);
+    let mut n = 0;
+    for claimed in 0..64u8 {
+        for tail in 0..12usize {
+            let mut v = vec![first, 0, 0, 0, 1, 8, 1, 2, 3, 4, 5, 6, 7, 8, 0, claimed];
+            v.extend(core::iter::repeat(0x11).take(tail));
+            let bytes = BytesMut::from(&v[..]);
+            // must not panic
+            let r = PartialDecode::new(bytes, &parser, &[1], false);
+            if let Ok((d, _)) = r {
+                assert!(d.len() <= v.len());
+                n += 1;
+            }
+        }
+    }
+    1 + (n > 0) as u32
+}
